@@ -277,7 +277,24 @@ func ruleTabAssoc(c *Ctx, r *R) {
 			}
 			return true
 		})
-		// the loop must hand `left` to the Led
+		// the loop is left through its condition only: binding powers (and the header mask) alone
+		// decide where an operand ends.  An extra exit — on the position of a token, on its
+		// spelling — makes the grouping depend on layout or on the particular operator
+		if found > 0 {
+			ast.Inspect(f.Body, func(k ast.Node) bool {
+				switch x := k.(type) {
+				case *ast.FuncLit:
+					return false
+				case *ast.BranchStmt:
+					if x.Tok == token.BREAK || x.Tok == token.GOTO {
+						r.fail("loop exit", c.Pos(x), "the precedence-climbing loop of doExpression has an additional exit ("+x.Tok.String()+"): an operand can end for a reason other than binding power, e.g. at a line break before `-`, `*`, `&`, `^` — `total := base +` newline `rate*n - discount` is cut into `base + rate*n` and a dead `-discount` statement, without any error")
+					}
+				case *ast.ReturnStmt:
+					r.fail("loop exit", c.Pos(x), "the precedence-climbing loop of doExpression returns from inside the loop: an operand can end for a reason other than binding power")
+				}
+				return true
+			})
+		}
 		return true
 	})
 	if found == 0 {
